@@ -447,7 +447,12 @@ class PathEnum:
             # `self._helper(x) >= K`: an operand that is an inlinable call is evaluated into a temporary first (its branches become
             # branches of this path), then the comparison is made on the value it returned
             for operand in [test.left] + list(test.comparators):
-                if isinstance(operand, ast.Call) and self.resolver(operand, fr, p) is not None:
+                tgt_ = self.resolver(operand, fr, p) if isinstance(operand, ast.Call) else None
+                if tgt_ is not None and hasattr(tgt_[0], 'node'):
+                    body_ = [x for x in tgt_[0].node.body if not (isinstance(x, ast.Expr) and isinstance(x.value, ast.Constant))]
+                    if all(isinstance(x, (ast.Assign, ast.Return)) for x in body_):
+                        tgt_ = None     # a straight-line helper is an expression: the normaliser inlines it where it stands
+                if isinstance(operand, ast.Call) and tgt_ is not None:
                     inl = self._inline(operand, p, fr)
                     if inl is None:
                         break
